@@ -177,6 +177,10 @@ fn c13_strategy(ctx: &Ctx) -> BoxedStrategy<SeqCase> {
           actions.truncate(i + 1);
         }
       }
+      // the take(n) only on the subscriber that comes first, the others want everything
+      // (replay: a first subscriber that leaves early must not shorten what later ones get)
+      let first_sub = actions.iter().find_map(|a| if let Action::Subscribe(k) = a { Some(*k) } else { None });
+      let take_only = if hash_seed >= 2 { first_sub } else { None };
       let uses_2 = actions.iter().any(|a| matches!(a, Action::Subscribe(2) | Action::Unsub(2)));
       SeqCase {
         case: Case {
@@ -187,6 +191,7 @@ fn c13_strategy(ctx: &Ctx) -> BoxedStrategy<SeqCase> {
           // subscribers that end by themselves (take) - otherwise not for replay over cold
           // sources, whose subscriber count must stay above zero until the source finished
           conn_take: if kind == ConnKind::Replay && !hot && !replay_cold_take { None } else { take },
+          conn_take_only: take_only,
           recorders: vec![
             match nested {
               // (observer 2 then never appears in the generated calls: its outcome would
@@ -213,6 +218,9 @@ fn c13_check(_ctx: &Ctx, c: &SeqCase) -> Report {
   rep.classes.push(format!("kind:{:?}", c.case.conn.as_ref().unwrap()));
   let hot = !c.case.hots.is_empty();
   rep.classes.push(if hot { "source:hot".into() } else { "source:cold-synchronous".into() });
+  if c.case.conn_take.is_some() {
+    rep.classes.push(if c.case.conn_take_only.is_some() { "take:first-subscriber-only".into() } else { "take:every-subscriber".into() });
+  }
   // non-trivial: >= 2 subscribers with different join times, or a resubscribe after the
   // count dropped to zero, or a synchronous source
   let mut subs_seen = 0;
